@@ -921,12 +921,12 @@ Qed.
 
 (* an explicit packet id that is still in flight is refused: the send fails with PacketIdInUse, nothing is queued *)
 Lemma proceed_inuse s x :
-  tid x <> 0 -> memN (tid x) (ids s) = true -> srem s = 0 ->
+  io s = 0 -> tid x <> 0 -> memN (tid x) (ids s) = true -> srem s = 0 ->
   (tk x = 7 -> match sig_of x with Some c => rx_alive s c = true | None => True end) ->
   snd (proceed s x) = TDone ST_IDINUSE /\ inflight (fst (proceed s x)) = inflight s.
 Proof.
-  intros T M S A. unfold proceed, inner_subscribe, inner_publish, wait_response, wait_publish_response.
-  destruct (N.eqb_spec (tid x) 0); [contradiction|]. rewrite S, M. cbn [N.eqb negb].
+  intros I T M S A. unfold proceed, inner_subscribe, inner_publish, wait_response, wait_publish_response, stopped.
+  destruct (N.eqb_spec (tid x) 0); [contradiction|]. rewrite I, S, M. cbn [N.eqb negb].
   replace (negb (0 =? 0)) with false by reflexivity.
   destruct ((tk x =? 3) || (tk x =? 4)); cbn [fst snd]; auto.
   destruct (N.eqb_spec (tk x) 7) as [E|E]; cbn [andb].
@@ -954,11 +954,14 @@ Proof.
   rewrite E. clear E s0x. set (s0 := if k =? 7 then _ else s). set (x := new_task k idq size (length (chans s))).
   assert (Z : is_closed s0 = false) by (unfold is_closed, s0; destruct (k =? 7); sk; rewrite Hio; reflexivity).
   rewrite Z. unfold window_then_proceed, wait_readiness.
+  assert (ZS : stopped s0 = false) by (unfold stopped, s0; destruct (k =? 7); sk; rewrite Hio; reflexivity).
+  rewrite ZS.
   assert (R : (cap s0 <=? lenN (inflight s0)) || wrb s0 = false).
   { unfold s0. destruct (k =? 7); sk; rewrite W, orb_false_r; apply N.leb_gt; exact L. }
   rewrite R.
   assert (TX : tid x = idq /\ tk x = k) by (unfold x, new_task; destruct (k =? 7); auto). destruct TX as [TX TK].
   destruct (proceed_inuse s0 x) as [P1 P2].
+  - unfold s0. destruct (k =? 7); exact Hio.
   - now rewrite TX.
   - rewrite TX. unfold s0. destruct (k =? 7); exact Hin.
   - unfold s0. destruct (k =? 7); exact S.
@@ -2478,6 +2481,7 @@ Lemma wait_publish_response_err s id ack rem tag big s' e :
   wait_publish_response s id ack rem tag big = (s', inr e) -> s' = s.
 Proof.
   unfold wait_publish_response, enc_publish_chk, new_chan.
+  destruct (stopped s); [intros H; now injection H as <- _|].
   destruct (negb (srem s =? 0)); [intros H; now injection H as <- _|].
   destruct (memN id (ids s)); [intros H; now injection H as <- _|].
   destruct (big && (io s =? 0)); [intros H; now injection H as <- _|]. discriminate.
@@ -2488,7 +2492,7 @@ Lemma wait_publish_response_big s id ack rem tag :
   srem s = 0 -> memN id (ids s) = false -> io s = 0 ->
   wait_publish_response s id ack rem tag true = (s, inr ST_ENCODE).
 Proof.
-  intros S M I. unfold wait_publish_response, enc_publish_chk. rewrite S, M, I. reflexivity.
+  intros S M I. unfold wait_publish_response, enc_publish_chk, stopped. rewrite S, M, I. reflexivity.
 Qed.
 
 Lemma poll_ended_books s t x' e :
